@@ -70,6 +70,16 @@ CLAIMED = {
             "Trusted: pysym translator (validated per run), z3/cvc5 FP theories, element-wise numpy models listed per obligation; "
             "QuantizedTime only for a sweep of concrete durations.",
             "DESIGN.md §1 C10"),
+    "C09": ("CrossHair/z3 symbolic execution of every registered subfield serializer taken from the live registry: enum "
+            "serializers over the FULL wire range of their variable, flag serializers on a solver-selected boundary/single-bit "
+            "catalogue, adapters (object state x PCode, xfer packet id, dates x time zones), byte-payload serializers on ANY "
+            "payload <= 2 bytes and on single-byte substitutions of accepted base payloads (fixed-point obligation), the date "
+            "adapter's integer arithmetic with the C datetime type stubbed by its contract, block cache invalidation",
+            "Bounded symbolic model checking, one obligation per (serializer class, wire type); object and plain-data form; "
+            "plain-data repr evaluated back as a literal.",
+            "Trusted: CrossHair + z3; lazy_object_proxy replaced by a Python proxy; values that reach bit operators, float "
+            "unpacking or C datetime are realized, so those domains are catalogues chosen by the solver.",
+            "DESIGN.md §1 C09"),
     "C12": ("CrossHair/z3 symbolic execution of the real LLSD message serializer (harnesses generated per template, symbolic "
             "U32/U64/S64 values and block counts), of the real binary LLSD formatter/parsers on trees built from symbolic "
             "choices with symbolic S32 leaves, and of the notation formatter on strings from a hostile alphabet",
@@ -86,6 +96,15 @@ CLAIMED = {
             "Trusted: CrossHair + z3 + struct patch (incl. the repeat-count fix); floats/UUIDs/TE/ExtraParams from the "
             "repo's sample payload; State byte from a 6-value catalogue.",
             "DESIGN.md §1 C13"),
+    "C14": ("CrossHair/z3 path-exhaustive exploration of ALL bounded message histories (every event parameter a solver-chosen "
+            "integer; first event up to renaming) driven through the real session message handler into the real world / region "
+            "object managers, compared after every event with an independent scene-graph reference model (indices, parent / "
+            "children links in both directions, orphanage, pending requests)",
+            "Bounded model checking of the object tracker: every history within the bound is covered; the handlers run on "
+            "concrete values once the solver has fixed a history.",
+            "Trusted: CrossHair + z3 (path enumeration over the selectors), the reference model in harness/c14.py; message "
+            "content is a concrete catalogue; event loop pumped between events.",
+            "DESIGN.md §1 C14"),
     "C15": ("CrossHair/z3-driven exhaustive exploration of fault schedules (event type x capability kind x raise point x addon "
             "behaviour) through the real pump_proxy_event / HippoHTTPFlow take/resume / CapData (de)hydration, counting "
             "hand-backs and comparing the handed-back state",
